@@ -886,6 +886,10 @@ var directedCases = []directed{
 	{"", "${env:C12_UNSET}", "null", "", false, false, ""}, {"", "${env:C12_UNSET:-dflt}", `"dflt"`, "dflt", false, false, ""}, {"", "${env:1ABC}", "", ng, true, false, "invalid identifier"},
 	{"", "${env:C12_REF}", `"A"`, "A", false, false, ""}, {"", "${env:C12_ESC}", `"${env:C12_A}"`, "${env:C12_A}", false, false, ""}, {"", "${env:C12_CYC}", "", ng, true, false, ""},
 	{"", "${yaml:[1, 2]}", "[i:1,i:2]", "[1, 2]", false, false, ""}, {"", "x${yaml:0123}", `"x0123"`, "x0123", false, false, ""},
+	// '$' inside the braces: the escape applies outside references only, a name that contains '$' is an error
+	{"", "${vv:$$k}", "", ng, true, false, "even run of $ inside the name (the key exists in the table)"}, {"", "x-${vv:a$$b}-y", "", ng, true, false, ""},
+	{"vv", "${NA$$ME}", "", ng, true, false, "default scheme"}, {"", "${vv:k:-pa$$word}", "", ng, true, false, ""}, {"", "${env:C12_UNSET:-pa$$word}", "", ng, true, false, "$$ in an env default"},
+	{"", "${yaml:a$$b}", "", ng, true, false, ""}, {"", "${vv:$$$$}", "", ng, true, false, ""}, {"", "${vv:a$b}", "", ng, true, false, "odd run"}, {"", "$${vv:$$k}", `"${vv:$k}"`, "${vv:$k}", false, false, "escaped as a whole: plain text"},
 	// boundary class
 	{"", "${vv:dollar}{vv:a}", "", ng, false, true, "value `$` meets a following brace"}, {"", "${vv:enddollar}$", "", ng, false, true, ""},
 }
